@@ -10,6 +10,7 @@ from driver import Outcome, finish, handle_results
 from kani_prop import ARENA_SCALE, Attach, replay_incrate
 import c05
 import c15
+import cert_prop
 
 PROP = "C04"
 SRC = "c04_kernels.rs"
@@ -172,12 +173,19 @@ def run(tier, seed, only):
             if p["covers_total"] and p["covers_satisfied"] == p["covers_total"]:
                 out.nontrivial += 1
     out.extra_coverage["public_api_witnesses"] = witness_log
-    rc = finish(PROP, tier, seed, out, t0, functions(), ASSUMPTIONS, [], sc.scalings, RULE)
+    if not only:
+        # native sweep of the certificate engine's universes (dev AND release): a panic in solve(), Conflict::graph,
+        # graphviz or the user-friendly message is reported here.  This is an observation of real runs, not a solver query.
+        cert_prop.cert_extra(PROP, tier, seed)(sc, out)
+    rc = finish(PROP, tier, seed, out, t0, functions(), ASSUMPTIONS + [
+        "additional native sweep (NOT the deciding step): the certificate engine's universes (families plain/full/wide/hints/soft/reuse) are solved by the real dev and release builds with conflict graph, graphviz and message rendering; any panic is a violation"], [], sc.scalings, RULE)
     sc.cleanup()
     return rc
 
 
 def replay(path):
+    if cert_prop.is_cert_replay(path):
+        return cert_prop.replay_cert(PROP, path)
     info = json.load(open(path))
     if "scenarios" in info:
         sc = Scratch("c04_replay")
